@@ -184,18 +184,21 @@ type World struct {
 	PhaseEvents []abci.Event
 	// ElysMarketPool: id of the second oracle pool (uelys/uusdc) with leverage enabled, 0 if none
 	ElysMarketPool uint64
-	byAddr         map[string]*Actor
-	Height         int64
-	Now            int64
-	ValSet         *cmttypes.ValidatorSet
-	Val            *cmttypes.Validator
-	ValOper        sdk.ValAddress
-	Prices         map[string]math.LegacyDec // display -> price fed by the default feeder
-	Silent         map[string]bool           // display -> feeder silent
-	Blocks         []*BlockRecord
-	KeepLog        int // number of block records kept (0 = all)
-	Dead           bool
-	Gov            string
+	// SecondAsset: the volatile asset of that second market ("uelys", or "uatom": two markets for
+	// the same trading asset)
+	SecondAsset string
+	byAddr      map[string]*Actor
+	Height      int64
+	Now         int64
+	ValSet      *cmttypes.ValidatorSet
+	Val         *cmttypes.Validator
+	ValOper     sdk.ValAddress
+	Prices      map[string]math.LegacyDec // display -> price fed by the default feeder
+	Silent      map[string]bool           // display -> feeder silent
+	Blocks      []*BlockRecord
+	KeepLog     int // number of block records kept (0 = all)
+	Dead        bool
+	Gov         string
 
 	CommitMu     sync.Locker // if set, held exclusively around Commit (the committing ABCI client's discipline)
 	GenesisBytes []byte
